@@ -110,6 +110,22 @@ func shell(tag string) {
 					break
 				}
 			}
+			if st == 500 && strings.Contains(string(b), "Panic detected") {
+				t := w.ChildStderrTail(6000)
+				if i := strings.LastIndex(t, "Stack trace from"); i >= 0 {
+					t = t[i:]
+				}
+				var keep []string
+				for _, ln := range strings.Split(t, "\n") {
+					if strings.Contains(ln, "/repo/") || strings.Contains(ln, "janelia-flyem/dvid") {
+						keep = append(keep, ln)
+					}
+				}
+				if len(keep) > 14 {
+					keep = keep[:14]
+				}
+				fmt.Println("PANIC STACK:\n" + strings.Join(keep, "\n"))
+			}
 			if printable {
 				fmt.Printf("%s %s -> %d %s\n", f[0], f[1], st, string(b))
 			} else {
